@@ -215,7 +215,7 @@ def ocaml_build(timeout=900):
         srcs = glob.glob(os.path.join(COQ, "theories", "Model", "*.vo")) + \
             glob.glob(os.path.join(COQ, "theories", "Base", "*.vo")) + \
             glob.glob(os.path.join(COQ, "theories", "Gen", "*.vo")) + \
-            glob.glob(os.path.join(OCAML, "*.ml")) + [os.path.join(OCAML, "Extract.v"), os.path.join(OCAML, "build.sh")]
+            glob.glob(os.path.join(OCAML, "*.ml")) + [os.path.join(OCAML, "build.sh")]
         if os.path.exists(MODEL_RUN):
             mt = os.path.getmtime(MODEL_RUN)
             if all(os.path.getmtime(s) <= mt for s in srcs if os.path.exists(s)):
